@@ -46,7 +46,9 @@ def gen_history(rng, nops, style='cache', static=5):
         r = rng.random()
         if r < 0.10 and created < 6:
             created += 1
-            st, dy, h = gen_filter(rng) if style != 'scope' or rng.random() < 0.3 else ('a' * NCS, '1' * NCS, '-')
+            # (style 'scope' = C02: which collector an emission goes to; its collectors accept everything, so that the
+            #  verdict does not depend on filtering and caching, which are C01's subject)
+            st, dy, h = gen_filter(rng) if style != 'scope' else ('a' * NCS, '1' * NCS, '-')
             ops.append('nc %d %s %s %s' % (created, st, dy, h)); handles.add(created)
         elif r < 0.14 and handles:
             c = rng.choice(sorted(handles)); handles.discard(c); ops.append('dh %d' % c)
@@ -58,7 +60,7 @@ def gen_history(rng, nops, style='cache', static=5):
         elif r < 0.14 + 0.18 * w_scope:
             t = rng.randrange(nthreads)
             if depth[t] > 0 or rng.random() < 0.05:
-                if depth[t] > 1 and rng.random() < 0.25:
+                if depth[t] > 1 and rng.random() < 0.25 and style == 'scope':     # scopes left by unwinding belong to C02
                     k = rng.randrange(1, depth[t] + 1); ops.append('pp %d %d' % (t, k)); depth[t] -= k
                 else:
                     ops.append('pd %d' % t); depth[t] = max(0, depth[t] - 1)
@@ -69,7 +71,7 @@ def gen_history(rng, nops, style='cache', static=5):
             ops.append('ts'); depth[nthreads] = 0; nthreads += 1
         elif r < 0.14 + 0.18 * w_scope + 0.09:
             ops.append('rb')
-        elif r < 0.14 + 0.18 * w_scope + 0.14 and created:
+        elif r < 0.14 + 0.18 * w_scope + 0.14 and created and style != 'scope':
             ops.append('fl %d %d' % (rng.randrange(1, created + 1), rng.randrange(NCS)))
         elif r < 0.14 + 0.18 * w_scope + 0.17:
             ops.append('cur')
